@@ -47,6 +47,8 @@
 #![deny(missing_docs)]
 #![cfg_attr(docsrs, feature(doc_cfg), deny(rustdoc::broken_intra_doc_links))]
 #[cfg(metrics_verif)]
+mod verif_chan;
+#[cfg(metrics_verif)]
 mod verif_mio;
 #[cfg(metrics_verif)]
 use metrics::__verif::sync::atomic::{AtomicBool, AtomicUsize};
@@ -78,7 +80,10 @@ use std::{
 };
 
 use bytes::Bytes;
+#[cfg(not(metrics_verif))]
 use crossbeam_channel::{bounded, unbounded, Receiver, Sender};
+#[cfg(metrics_verif)]
+use self::verif_chan::{bounded, unbounded, Receiver, Sender};
 use metrics::{
     Counter, CounterFn, Gauge, GaugeFn, Histogram, HistogramFn, Key, KeyName, Metadata, Recorder,
     SetRecorderError, SharedString, Unit,
@@ -203,8 +208,6 @@ impl State {
 
     fn push_metric(&self, key: &Key, op: MetricOperation) {
         if self.should_send() {
-            #[cfg(metrics_verif)]
-            metrics::__verif::sync_point("tcp.tx.try_send");
             let _ = self.tx.try_send(Event::Metric(key.clone(), op));
             self.wake();
         }
@@ -428,8 +431,6 @@ fn run_transport(
                             break;
                         }
 
-                        #[cfg(metrics_verif)]
-                        metrics::__verif::sync_point("tcp.rx.try_recv");
                         let msg = match rx.try_recv() {
                             Ok(msg) => msg,
                             Err(e) if e.is_empty() => {
